@@ -55,12 +55,16 @@ def _run(V, work, tier):
     if rc != 0:
         raise MachineryError("pathfs driver failed: " + err[-2000:])
     real = {}
+    sessions = []
     ncases = 0
     nserved = 0
     for line in out.splitlines():
         r = json.loads(line)
         if r.get("summary"):
             ncases = r["cases"]
+            continue
+        if r.get("session"):
+            sessions.append(r)
             continue
         nserved += 1
         k = key(r)
@@ -78,6 +82,18 @@ def _run(V, work, tier):
             elif want != r["marker"]:
                 V.add(None, "wrong file served - relative location resolved against the wrong directory? (%s via %s): location %s (prefix %s, context %s) returned %s, specification %s"
                       % (r["lib"], r["via"], k[4], k[2], k[3], r["marker"], want), r)
+    # sessions: the answer depends only on the file doing the loading NOW (root/sub/main.lisp sits in the directory of the
+    # specification's context subx), never on what the same runtime loaded before
+    for r in sessions:
+        ctx = "subx" if r["ctx"] == "submain" else r["ctx"]
+        want = model.get(("root", r["root"], "rel", ctx, "/".join(r["comps"])), "refused")
+        got = r["marker"] or "refused"
+        if got != want and got != "refused":
+            V.add(None, "in a session (order %d, step %d) the file %s loading %s got %s, the specification says %s: the loading context is stale"
+                  % (r["order"], r["step"], r["ctx"], "/".join(r["comps"]), got, want), r)
+    V.coverage["session_loads"] = len(sessions)
+    if len(sessions) < 100 or not any(r["marker"] for r in sessions):
+        raise MachineryError("session histories did not run or served nothing (%d records)" % len(sessions))
     # refusing is always allowed by the property; record how often the code refuses what the specification would allow
     allowed_refused = [k for k in model if k not in real]
     V.coverage["model_served"] = len(model)
